@@ -8,6 +8,9 @@
 //	            fn 3 t -> (ByteSize LengthBytes reflect-kind name)
 //	            fn 4 (which arg) -> asetime helper result
 //	            fn 9 (label n) -> (n failures)                      (thorough: sweeps checked on the Go side only)
+//	            fn 20, 21, 22: the package leg (values inside TDS_PARAMS / TDS_ROW with their formats), see pkgleg.go
+//	-gen may be repeated: a path named GenPkg.v receives the tables of the package layer (harness/pk.WriteGen), any
+//	other path the tables of Gen/GenC04.v
 //	-prop C05:  fn 1 (t len v ref) -> (enc-outcome dref) with ref = () or (#reference-bytes of the harness' own codec),
 //	            dref = () or the implementation's decode outcome of the reference bytes
 //	            fn 4 (which arg) -> asetime helper result
